@@ -507,6 +507,151 @@ def d1_leg_direction(F, r):
         raise AnchorError(f"only {n} rank-resolved leg queries")
 
 
+# ---- A1 goal assembly ---------------------------------------------------------------------------
+GR = "vrp_pragmatic::format::problem::goal_reader::"
+PROPS = "vrp_pragmatic::format::problem::ProblemProperties"
+WITH_FEATURES = "vrp_core::models::goal::GoalContextBuilder::with_features"
+WITH_CONSTRAINT = "vrp_core::models::goal::FeatureBuilder::with_constraint"
+# hard constraint -> (constructor called from create_goal_context, guarding ProblemProperties field or None, model fields the property must be derived from)
+ASSEMBLY = {
+    "capacity": ("get_capacity_feature", None, ()),
+    "reachable": ("create_reachable_feature", "has_unreachable_locations", ("error_codes",)),
+    "travel limits": ("get_tour_limit_feature", "has_tour_travel_limits", ("max_duration", "max_distance")),
+    "break": ("create_optional_break_feature", "has_breaks", ("breaks",)),
+    "recharge": ("get_recharge_feature", "has_recharges", ("recharges",)),
+    "tour order": ("create_tour_order_hard_feature", "has_order", ("order",)),
+    "compatibility": ("create_compatibility_feature", "has_compatibility", ("compatibility",)),
+    "group": ("create_group_feature", "has_group", ("group",)),
+    "skills": ("create_skills_feature", "has_skills", ("skills",)),
+    "locked jobs": ("create_locked_jobs_feature", "locks", ()),
+    "tour size": ("create_activity_limit_feature", "has_tour_size_limits", ("tour_size",)),
+}
+OTHER_PROPS = {"has_multi_dimen_capacity": ("capacity", "demand"), "has_reloads": ("reloads",), "has_value": ("value",)}
+
+
+def a1_goal_assembly(F, r):
+    cgc = GR + "create_goal_context"
+    fn = F.fns.get(cgc)
+    if fn is None:
+        raise AnchorError(cgc)
+    wf = [(bi, t) for bi, t in mir.calls(fn) if t["callee"] == WITH_FEATURES]
+    if len(wf) != 1:
+        raise AnchorError("GoalContextBuilder::with_features call in create_goal_context")
+    wf_b, wf_t = wf[0]
+    # the features vector: the local behind the slice/ref passed to with_features
+    feat_locals = {v for k, v, p in mir.trace(fn, wf_t["args"][0], through_calls=mir.PASS_THROUGH_CALLS + ("alloc::vec::Vec::<T, A>::as_slice",)) if k in ("local",)}
+    for k, v, p in mir.trace(fn, wf_t["args"][0]):
+        if k == "call":
+            feat_locals.add(fn["bbs"][v]["t"]["dest"]["l"])
+    pushes = {}
+    for bi, t in mir.calls(fn):
+        if not t["callee"].endswith("Vec::<T, A>::push") or "Feature" not in " ".join(t["ga"]):
+            continue
+        leaves, crossed = mir.deep_leaves(fn, t["args"][1])
+        for c in crossed:
+            last = c.split("::")[-1]
+            pushes.setdefault(last, []).append((bi, t))
+    for what, (ctor, guard, _) in ASSEMBLY.items():
+        inst = f"assembly: {what}"
+        sites = pushes.get(ctor)
+        if not sites:
+            r.fail(inst, f"the {what} constraint is never pushed into the feature list of the goal (constructor `{ctor}` not assembled): the hard rule is silently not enforced", F.loc(cgc))
+            continue
+        bi, t = sites[0]
+        ctor_ids = [i for i in F.fns if i.split("::")[-1] == ctor and F.fns[i]["kind"] != "Closure"]
+        reaches = any(WITH_CONSTRAINT in cg.reach(F, [i]) for i in ctor_ids)
+        if ctor_ids and not reaches:
+            r.fail(inst, f"`{ctor}` builds a feature without FeatureBuilder::with_constraint: the feature no longer carries the hard constraint", F.loc(ctor_ids[0]))
+            continue
+        if guard is None:
+            if wf_b in mir.reach(fn, [0], blocked=[bi]):
+                r.fail(inst, f"the {what} constraint is assembled only conditionally", F.loc(cgc, t["ln"]))
+            else:
+                r.ok(inst, f"{ctor} pushed unconditionally")
+            continue
+        # guarded by the expected property (true edge), and by nothing that is not derived from it
+        gates = []
+        for sb, bb in enumerate(fn["bbs"]):
+            tt = bb["t"]
+            if tt["k"] == "switch" and mir.is_place(tt["o"]):
+                roots = mir.trace(fn, tt["o"])
+                if any(guard in p for k, v, p in roots) or (guard == "locks" and any("locks" in p for k, v, p in mir.deep_leaves(fn, tt["o"])[0])):
+                    for v, tb in tt["tg"]:
+                        pass
+                    gates.append(sb)
+        if not gates:
+            r.fail(inst, f"the {what} constraint is not switched on by `{guard}`", F.loc(cgc, t["ln"]))
+            continue
+        # the push must be reachable from at least one edge of the guard and the guard must dominate it
+        if bi in mir.reach(fn, [0], blocked=gates):
+            r.fail(inst, f"the push of {ctor} is reachable without testing `{guard}`", F.loc(cgc, t["ln"]))
+        else:
+            r.ok(inst, f"{ctor} pushed under `{guard}`")
+    # every ProblemProperties field is derived from the input model fields it stands for
+    gpp = "vrp_pragmatic::format::problem::problem_reader::get_problem_properties"
+    pfn = F.fns.get(gpp)
+    if pfn is None:
+        raise AnchorError(gpp)
+    agg = [s for _, _, s in mir.stmts(pfn) if s["r"]["k"] == "agg" and s["r"].get("n") == PROPS + "#ProblemProperties"]
+    if not agg:
+        raise AnchorError("ProblemProperties aggregate")
+    want = {g: m for (_, g, m) in ASSEMBLY.values() if g and g != "locks"}
+    want.update(OTHER_PROPS)
+    ad = F.adts.get(PROPS)
+    for f in ad["v"][0]["f"]:
+        if f["n"] not in want:
+            r.fail(f"property {f['n']}", "new ProblemProperties field without a row in the assembly table", ad["span"])
+    for fname, o in zip(agg[0]["r"]["fs"], agg[0]["r"]["o"]):
+        exp = want.get(fname)
+        if exp is None:
+            continue
+        leaves, crossed = mir.deep_leaves(pfn, o)
+        cls = {v for k, v, p in leaves if k == "closure"}
+        consts = [k for k, v, p in leaves if k == "const"]
+        only_const = bool(leaves) and all(k == "const" for k, v, p in leaves)
+        fields = set()
+        todo = list(cls)
+        seen_c = set()
+        while todo:
+            c = todo.pop()
+            if c in seen_c or c not in F.fns:
+                continue
+            seen_c.add(c)
+            cf = F.fns[c]
+            for p_ in util.all_places(cf):
+                for a_, f_ in mir.proj_fields(p_):
+                    if a_.startswith("vrp_pragmatic::format::problem::model::"):
+                        fields.add(f_.split("::")[-1])
+            for bi2, si2, s2 in mir.stmts(cf):
+                if s2["r"]["k"] == "agg" and s2["r"].get("ak") == "closure":
+                    todo.append(s2["r"]["n"])
+            for _, t2 in mir.calls(cf):
+                for a2 in t2["args"]:
+                    if mir.is_fnconst(a2):
+                        todo.append(a2["fn"])
+        for p_ in util.all_places(pfn):
+            pass
+        inst = f"property {fname}"
+        if only_const:
+            r.fail(inst, "property is a constant: the constraint it switches is always on/off whatever the input says", F.loc(gpp))
+        elif fields & set(exp):
+            r.ok(inst, f"derived from model field(s) {sorted(fields & set(exp))}")
+        else:
+            r.fail(inst, f"property is not derived from the model field(s) {list(exp)} it stands for (reads {sorted(fields)[:6]}): the constraint is switched by unrelated data", F.loc(gpp))
+    # time windows stay enforced: set_time_constrained(false) only in the hierarchical-areas inner objective
+    for fid, f2 in F.fns.items():
+        if not fid.lstrip("<").startswith("vrp_pragmatic::"):
+            continue
+        for _, t in mir.calls(f2):
+            if t["callee"].endswith("TransportFeatureBuilder::set_time_constrained"):
+                a = t["args"][1]
+                root = util.short_fn(F.root_of(fid))
+                if mir.is_const(a) and a["c"] == "false" and "hierarchical" not in root:
+                    r.fail(f"time constraint in {root}", "transport feature built with time windows switched off", F.loc(fid, t["ln"]))
+                else:
+                    r.ok(f"time constraint in {root}", "set_time_constrained(false) only for the hierarchical-areas inner objective")
+
+
 def run(ctx):
     F = ctx.F
     ctx.explanation = (
@@ -514,8 +659,7 @@ def run(ctx):
         "complete constraint evaluation on activity and route level (G1-G3), only confirmed modules put activities into tours (G4), "
         "constraints read cache/dimension slots with the type they are written with and every slot they read has a writer (K1,K2), every "
         "job/route removal is guarded by the locked set (L1). Cache-coherence clauses the constraints rely on are decided under C05.")
-    ctx.not_decided = ("that each constraint's arithmetic is right (feasible(P,S) itself), goal assembly completeness (A1) and relaxed-goal escape (R1/R2) "
-                       "are not armed in this revision; schedule/termination independence beyond C07/C15 clauses.")
+    ctx.not_decided = ("that each constraint's arithmetic is right (feasible(P,S) itself), relaxed-goal escape (R1/R2) is not armed in this revision; schedule/termination independence beyond C07/C15 clauses.")
     ctx.assumptions += ["user relations (locks) and initial solutions are consistent with the constraints (documented precondition)",
                         "CHA call graph; closures may-run at construction site",
                         "same-named generic parameters inside one module denote the same binding (slot type comparison)"]
@@ -523,6 +667,7 @@ def run(ctx):
     ctx.run("C01-G2", "route-level gate: public evaluator entries reach the insertion analysis only through the None edge of goal.evaluate(route move)", g2_route_gate, floor=2)
     ctx.run("C01-G3", "InsertionSuccess is built only from an evaluated feasible position (make_success callers gated; copies only)", g3_success_construction, floor=12)
     ctx.run("C01-G4", "only confirmed modules insert activities into tours / obtain mutable activity access", g4_who_may_insert, floor=12)
+    ctx.run("C01-A1", "goal assembly: every hard constraint is pushed into the goal's feature list under its own input-derived property", a1_goal_assembly, floor=20)
     ctx.run("C01-D1", "routing legs are queried in travel direction (prev -> target -> next)", d1_leg_direction, floor=4)
     ctx.run("C01-K1", "slot type agreement: every reader of a TypeId-keyed slot uses a type some writer stores", k1_slot_types, floor=40)
     ctx.run("C01-K2", "no orphan slot: every slot read by a hard constraint has a writer", k2_no_orphans, floor=15)
